@@ -131,6 +131,9 @@ def run(ctx: Ctx) -> Result:
             rk = bytes(SigningKey(V.rbytes(rng, 32)).verify_key); refund = {pks[rng.randrange(n)]: rk}
         flags = rng.choice(['00', '00', '01'])
         sfs = [{'sigfield1': b'pay %d' % i, 'sigfield2': V.rbytes(rng, 5)} for i in range(n)]
+        if it % 3 == 1:      # each hop commits through whichever sigfields it likes, e.g. a single one at any index 1..8
+            sfs = [{f'sigfield{k}': b'pay %d ' % i + V.rbytes(rng, 3) for k in rng.sample(range(1, 9), rng.choice([1, 1, 2]))} for i in range(n)]
+            if it % 6 == 1: sfs[rng.randrange(n)] = {'sigfield8': b'only field eight'}
         inp = {'n': n, 'seed': seed.hex(), 'flags': flags, 'refund': bool(refund), 'signer_seeds': [x.hex() for x in seeds]}
         res.note_case(('amhl', n, seed, flags, bool(refund), tuple(seeds)))
         try:
